@@ -22,7 +22,8 @@ META = {
         'normaliser (Version.nearest), operator and constant.  (D4) detect-or-validate logic: raise iff a version was '
         'given, otherwise upgrade.  Not decided: sequences of mutations as executions (covered inductively by D2+D4).'
         ' Also (D2): a derived grid whose rows are stored without validation (result._row = ...) is created with self.version / self._version.'
-        ' Also (D1): no earlier branch of the JSON reader returns a list/dict (the empty ones included) before its version gate.  (D2) an own Grid.extend walks its argument once.'),
+        ' Also (D1): no earlier branch of the JSON reader returns a list/dict (the empty ones included) before its version gate.  (D2) an own Grid.extend walks its argument once.'
+        ' Also (D2): the validate callback of the ordered maps is never rebound or removed after construction (copy / pickle hooks).'),
     'rule_text': 'obligations = 5 kinds x 5 sites, entry paths, gate comparisons, logic facts',
     'trusted_base': ['MutableMapping.update/setdefault reduce to __setitem__; MutableSequence.append/extend/+= reduce to insert'],
 }
@@ -546,6 +547,33 @@ def _entry_paths(ctx, m):
         ctx.violation('C10.D2', 'hszinc/sortabledict.py::SortableDict.__init__', 'self._validate_fn = validate_fn',
                       'the validator passed by Grid is dropped', 'SortableDict.__init__ does not store validate_fn',
                       file='hszinc/sortabledict.py', engine='E7')
+    # ... and nothing takes it away later: a copy / pickle hook that clears it hands out containers that accept anything
+    # (copy.deepcopy(grid) copies metadata and columns through these hooks)
+    lost = []
+    for cname_, meths_ in (('SortableDict', sd), ('MetadataObject', m.methods('metadata', 'MetadataObject'))):
+        for mname_, fn_ in sorted(meths_.items()):
+            if mname_ == '__init__':
+                continue
+            for n_ in ast.walk(fn_):
+                if isinstance(n_, ast.Assign):
+                    for t_ in n_.targets:
+                        if (isinstance(t_, ast.Attribute) and t_.attr == '_validate_fn') or (
+                                isinstance(t_, ast.Subscript) and isinstance(t_.slice, ast.Constant) and t_.slice.value == '_validate_fn'):
+                            lost.append((cname_, mname_, n_))
+                if isinstance(n_, ast.Call) and isinstance(n_.func, ast.Attribute) and n_.func.attr == 'pop' and n_.args \
+                        and isinstance(n_.args[0], ast.Constant) and n_.args[0].value == '_validate_fn':
+                    lost.append((cname_, mname_, n_))
+    if lost:
+        cname_, mname_, n_ = lost[0]
+        ctx.violation('C10.D2', 'hszinc/%s.py::%s.%s' % ('sortabledict' if cname_ == 'SortableDict' else 'metadata', cname_, mname_),
+                      norm(n_),
+                      'g = Grid(version="2.0"); c = copy.deepcopy(g) (or pickle round trip); c.metadata["x"] = NA is accepted: the '
+                      'copy of the metadata / column containers went through %s.%s, which drops the validate callback -- the copy '
+                      'holds 3.0-only values under a 2.0 label, and a copy of an unversioned grid never upgrades' % (cname_, mname_),
+                      '%s.%s rebinds / removes _validate_fn after construction' % (cname_, mname_),
+                      file='hszinc/%s.py' % ('sortabledict' if cname_ == 'SortableDict' else 'metadata'), line=n_.lineno, engine='E7')
+    else:
+        ctx.ob('C10.D2', 'the validate callback of a container is set once, in __init__, and never rebound or removed', True)
     si = sd.get('__setitem__')
     if si is not None and any(isinstance(n, ast.Call) and norm(n.func) == 'self.add_item' for n in ast.walk(si)):
         ctx.ob('C10.D2', 'SortableDict.__setitem__ stores through add_item', True)
